@@ -381,7 +381,7 @@ def memory_phase(ctx, rng, nhist, nops):
         for rel in schema['rels']: ctx.count('rel:' + rel['kind'] + ('+ckey' if rel.get('ckey') else ''))
         ops, real = [], []
         violated = False
-        pks = None
+        pks = None; found = None
         with db_session:
             prev = []
             for _ in range(nops):
@@ -396,8 +396,8 @@ def memory_phase(ctx, rng, nhist, nops):
                 bad = ends_disagree(w, snap)
                 if bad:
                     p, key, q, why = bad[0]
-                    report_violation(ctx, schema, ops + [op], len(ops), classify(w, op, err, p, key, q, prev),
-                                     {'p': p, 'attr': list(key), 'q': q, 'why': why, 'outcome': err or 'ok'})
+                    found = (ops + [op], len(ops), classify(w, op, err, p, key, q, prev),
+                             {'p': p, 'attr': list(key), 'q': q, 'why': why, 'outcome': err or 'ok'})
                     ctx.count('oracle:ends-disagree')
                     violated = True; break
                 if dangling(w, snap):
@@ -426,6 +426,8 @@ def memory_phase(ctx, rng, nhist, nops):
                     rollback()
             else:
                 rollback()
+        if found is not None:      # reported outside the session: shrinking replays candidate histories in sessions of their own
+            report_violation(ctx, schema, found[0], found[1], found[2], found[3])
         if pks is not None:
             reload_phase(ctx, rng, w, [o for o in ops if not o.get('skip_model')], real, pks)
         if not violated: batch.append((schema, w, ops, real))
@@ -720,9 +722,11 @@ def check_fixed(ctx, schema, ops, kind):
     """a fixed history: oracle after every call on the real objects + correspondence with the model (failure causes outside the model are skipped there)"""
     w = World(schema)
     real = []
+    found = None; stop = False
     with db_session:
         prev = []
         for i, op in enumerate(ops):
+            if i >= len(ops): break
             err = w.apply(op)
             snap = w.snapshot()
             ctx.case({'schema': w.model_schema, 'op': op, 'i': i, 'directed': kind}, nontrivial=True, kind='directed-call')
@@ -730,15 +734,18 @@ def check_fixed(ctx, schema, ops, kind):
             bad = ends_disagree(w, snap)
             if bad:
                 p, key, q, why = bad[0]
-                report_violation(ctx, schema, ops[:i + 1], i, classify(w, op, err, p, key, q, prev), {'p': p, 'attr': list(key), 'q': q, 'why': why, 'outcome': err or 'ok'})
-                rollback(); w.db.disconnect(); return
+                found = (i, classify(w, op, err, p, key, q, prev), {'p': p, 'attr': list(key), 'q': q, 'why': why, 'outcome': err or 'ok'})
+                stop = True; break
             skip = err is not None and err not in MODEL_ERRS
+            if err is not None and op['k'] == 'create': ops = ops[:i + 1]          # later calls would refer to the object that was not created
             if skip and norm_dump(snap) != norm_dump(prev):
-                ctx.count('failure-outside-model:%s:STATE-CHANGED' % err); rollback(); w.db.disconnect(); return
+                ctx.count('failure-outside-model:%s:STATE-CHANGED' % err); stop = True; break
             real.append((err, snap, skip)); prev = snap
         rollback()
     w.db.disconnect()
-    if not ctx.driver.ok: return
+    if found is not None:
+        report_violation(ctx, schema, ops[:found[0] + 1], found[0], found[1], found[2])
+    if stop or not ctx.driver.ok: return
     out = ctx.driver('C12', [{'op': 'run', 'schema': w.model_schema, 'ops': [model_op(o) for o, r in zip(ops, real) if not r[2]]}])[0]
     steps = out.get('steps')
     if steps is None:
